@@ -150,6 +150,44 @@ pub fn execute(ctx: &mut Ctx, lines: &[String]) -> Vec<String> {
                 }
                 hex(&bytes)
             }
+            // two records from the same thread through one FileLogWriter: a big one (message of n
+            // letters B), then the current one; file bytes
+            ["FMT2", name, _ts, le, n] => {
+                ctx.report.count(&format!("fmt2.{name}"));
+                let n: usize = n.parse().unwrap();
+                let dir = ctx.work.join(format!("fmt-{}-{}-{li}", std::process::id(), ctx.case_no));
+                let _ = std::fs::remove_dir_all(&dir);
+                let mut b = FileLogWriter::builder(FileSpec::default().directory(&dir).basename("f").suppress_timestamp()).format(format_by_name(name));
+                if *le == "crlf" { b = b.use_windows_line_ending(); }
+                let w = Arc::new(b.try_build().unwrap());
+                flexi_logger::verif_hooks::set_virtual_now(Some(stamp_to_local(stamp)));
+                let r2 = rec.clone();
+                let mut big = rec.clone();
+                big.msg = "B".repeat(n);
+                let w2 = w.clone();
+                in_thread(rec.thread.clone(), move || {
+                    with_record(&big, |r| { w2.write(&mut DeferredNow::new(), r).unwrap(); });
+                    with_record(&r2, |r| { w2.write(&mut DeferredNow::new(), r).unwrap(); });
+                });
+                w.shutdown();
+                drop(w);
+                let bytes = std::fs::read(dir.join("f.log")).unwrap_or_default();
+                let _ = std::fs::remove_dir_all(&dir);
+                flexi_logger::verif_hooks::set_virtual_now(None);
+                nontrivial = true;
+                let le_b: &[u8] = if *le == "crlf" { b"\r\n" } else { b"\n" };
+                // oracle: exactly two framed records, the second one ends the file and its line does
+                // not contain the big message again
+                if !name.starts_with("colored") && *name != "json" {
+                    let tail_ok = bytes.ends_with(&[rec.msg.as_bytes(), le_b].concat());
+                    let b_count = bytes.iter().filter(|c| **c == b'B').count();
+                    let expect_b = n + rec.msg.bytes().filter(|c| *c == b'B').count();
+                    if !tail_ok || b_count > expect_b + 64 {
+                        ctx.report.fail(&case_id, "stale-buffer-content", &format!("line {li}: format {name}: after a record of {n} bytes the next record's line is not just its own format output: the file has {} bytes, {} letters B (the first message has {n})", bytes.len(), b_count));
+                    }
+                }
+                hex(&bytes)
+            }
             // one log call, two outputs (file + additional writer), the clock advances on every read
             ["OUTS", o1, o2] => {
                 ctx.report.count("op.OUTS");
@@ -244,6 +282,9 @@ pub fn gen_c20(tier: &str, seed: u64) -> Vec<Vec<String>> {
         let ts = ts_text(stamp, 0);
         for _ in 0..r.range(1, 3) {
             c.push(format!("FMT {} {} {}", r.pick(&names), hexs(&ts), r.pick(&["lf", "lf", "crlf"])));
+        }
+        if r.chance(1, 6) {
+            c.push(format!("FMT2 {} {} {} {}", r.pick(&names), hexs(&ts), r.pick(&["lf", "crlf"]), r.pick(&[300u64, 20_000, 70_000, 140_000])));
         }
         if r.chance(1, 2) {
             let le = *r.pick(&["lf", "crlf"]);
